@@ -109,16 +109,26 @@ theorem Inv.seq_le_sqCap {cfg : Cfg} {s : St} {d : Disk} (h : Inv cfg s d) {j : 
     does not go back behind the commit -/
 theorem Inv.seqHi_step {cfg : Cfg} {s s' : St} {d : Disk} (h : Inv cfg s d) {j j' : Job} (hj : s.job = some j)
     (hj' : s'.job = some j') (htr : s'.tr = s.tr) (hseq : s'.seq = s.seq) (hk : j'.kind = j.kind)
-    (hpc : j'.pc.beforeCommit = true → j.pc.beforeCommit = true) : seqHi s ≤ seqHi s' :=
-  seqHi_le_of_job hj hj' htr hseq hk hpc (h.seq_le_sqCap hj)
+    (hpc : j'.pc.beforeCommit = true → j.pc.beforeCommit = true) (hl : s'.limbo = s.limbo := by rfl) :
+    seqHi s ≤ seqHi s' :=
+  seqHi_le_of_job hj hj' htr hseq hk hpc (h.seq_le_sqCap hj) hl
 
-/-- the invariant does not look at `session.manifestFailed` -/
-theorem Inv.set_manifestFailed {cfg : Cfg} {s : St} {d : Disk} (h : Inv cfg s d) (b : Bool) :
+/-- the invariant looks at `session.manifestFailed` only through the ghost edit: it is set while the storage is
+    ahead of the session -/
+theorem Inv.set_manifestFailed {cfg : Cfg} {s : St} {d : Disk} (h : Inv cfg s d) (b : Bool)
+    (hb : s.limbo.isSome = true → b = true := by intro hx; first | rfl | cases hx) :
     Inv cfg { s with manifestFailed := b } d := by
   obtain ⟨h1, h2, h3, h4, h5, h6, h7⟩ := h
   refine ⟨h1, h2, h3, fun hr => ?_, fun hr => ?_, h6, ?_⟩
-  · obtain ⟨r1, r2, r3, r4, r5, r6, r7, r8, r9⟩ := h4 hr
-    exact ⟨r1, r2, r3, r4, r5, r6, r7, r8, r9⟩
+  · obtain ⟨r1, r2, r3, r4, r5, r6, r7, r8, r9, r10⟩ := h4 hr
+    refine ⟨r1, r2, r3, r4, r5, r6, r7, r8, r9, ?_⟩
+    unfold LimboOK at r10 ⊢
+    cases hu : s.limbo with
+    | none => trivial
+    | some u =>
+      rw [hu] at r10
+      obtain ⟨_, k⟩ : LimboFacts s d u := r10
+      exact ⟨hb (by rw [hu]; rfl), k⟩
   · have := h5 hr
     show Holds s.recov _
     refine this.imp (fun r hr' => ?_)
@@ -129,6 +139,68 @@ theorem Inv.set_manifestFailed {cfg : Cfg} {s : St} {d : Disk} (h : Inv cfg s d)
     obtain ⟨j1, j2, j3, j4, j5, j6, j7, j8, j9, j10, j11, j12⟩ := hj
     exact ⟨j1, j2, j3, j4, j5, j6, j7, j8, j9, j10, j11, j12⟩
 
+/-- the session mirrors the last view, or lags it by the ghost edit, while the job's edit is neither in the manifest
+    nor in a manifest that `CURRENT` names -/
+theorem JobOK.mirror_before' {cfg : Cfg} {s : St} {d : Disk} {j : Job} (h : JobOK cfg s d j)
+    (hbc : j.pc.beforeCommit = true) : Settled cfg s d (MirrorL s) := by
+  have hm := h.manifest
+  unfold JobManifestOK at hm
+  cases he : j.edit with
+  | none => rw [he] at hm; exact hm
+  | some e =>
+    rw [he] at hm
+    simp only at hm
+    cases hpc : j.pc <;> rw [hpc] at hm hbc <;> simp only [JobManifest, JPc.beforeCommit] at hm hbc
+    all_goals first
+      | exact hm
+      | exact hm.1
+      | cases hbc
+      | exact absurd hm id
+
+/-- the limbo facts under a step of the table phase of a job (its pc is not one of the retry of a commit, so the
+    ghost edit, if any, is a discarded transaction's): table `n`, an output of the job, changes -/
+theorem LimboOK.table_step {s : St} {d : Disk} (h : LimboOK s d) {j : Job} (hj : s.job = some j)
+    (hnret : j.pc.retry = false) {n : Nat} (hn : ∃ gs, (n, gs) ∈ j.outs) (hlive : ∀ t ∈ s.live, t ≠ n)
+    (T' : Files TableFile) (hT : ∀ t, t ≠ n → lookup T' t = lookup d.tables t) (pc' : JPc)
+    (hbc' : j.edit = none ∨ pc'.beforeCommit = true) :
+    LimboOK { s with job := some { j with pc := pc' } } { d with tables := T' } := by
+  unfold LimboOK at h ⊢
+  show Holds' s.limbo _
+  refine Holds'.imp (o := s.limbo) h (fun u hu => ?_)
+  obtain ⟨a, b, c, e, f, g, k0, k⟩ := hu
+  refine ⟨a, b, c, e, f, fun t ht => ⟨(g t ht).1, ?_⟩, hbc', ?_⟩
+  · have : tableGrpsOf { d with tables := T' } t = tableGrpsOf d t := by
+      unfold tableGrpsOf
+      show ((lookup T' t).map _).getD [] = _
+      rw [hT t (hlive t ht)]
+    rw [this]
+    exact (g t ht).2
+  · rcases k with k | k
+    · rw [hj] at k
+      have : j.pc.retry = true := k.2
+      rw [hnret] at this; cases this
+    · right
+      obtain ⟨k1, k2, k3⟩ := k
+      refine ⟨k1, k2, k3.imp (fun t ht => ⟨ht.1, ht.2.1, ?_⟩)⟩
+      have htn : t ≠ n := by
+        have h7 := ht.2.2
+        rw [holds_iff] at h7
+        obtain ⟨tf, _, _, _, h8⟩ := h7
+        rw [holds_iff] at h8
+        obtain ⟨g0, _, _, _, _, _, _, h9⟩ := h8
+        rw [hj] at h9
+        obtain ⟨gs, hgs⟩ := hn
+        have := h9 (n, gs) hgs
+        simp only at this
+        omega
+      show Holds (lookup T' t) _
+      rw [hT t htn]
+      refine ht.2.2.imp (fun tf htf => ⟨htf.1, htf.2.1, htf.2.2.imp (fun g0 hg0 => ?_)⟩)
+      obtain ⟨m1, m2, m4, m5, m6, m7⟩ := hg0
+      refine ⟨m1, m2, m4, m5, m6, ?_⟩
+      rw [hj] at m7
+      exact m7
+
 /-- everything but the `job` clause, for a step inside the table phase: only table `n`, which no admissible
     view lists, changes -/
 theorem Inv.table_step {cfg : Cfg} {s : St} {d : Disk} (h : Inv cfg s d) {j : Job} (hj : s.job = some j)
@@ -136,7 +208,8 @@ theorem Inv.table_step {cfg : Cfg} {s : St} {d : Disk} (h : Inv cfg s d) {j : Jo
     (hn : (n, gs) ∈ j.outs) (T' : Files TableFile) (hT : ∀ t, t ≠ n → lookup T' t = lookup d.tables t)
     (hTn : T'.Pairwise (fun p q => p.1 ≠ q.1)) (pc' : JPc) (hpc : ∀ m, pc' ≠ .rotRemove m) (j' : Job)
     (hj' : j' = { j with pc := pc' })
-    (hjob : JobOK cfg { s with job := some j' } { d with tables := T' } j') :
+    (hjob : JobOK cfg { s with job := some j' } { d with tables := T' } j')
+    (hnret : j.pc.retry = false) (hbc' : j.edit = none ∨ pc'.beforeCommit = true) :
     Inv cfg { s with job := some j' } { d with tables := T' } := by
   have hok := h.job
   rw [hj] at hok
@@ -144,19 +217,55 @@ theorem Inv.table_step {cfg : Cfg} {s : St} {d : Disk} (h : Inv cfg s d) {j : Jo
   have hph := h.not_crashed hj
   have hb := h.bounds hph
   have hnc : NoCommitYet s := by unfold NoCommitYet; rw [hj]; exact hbc
+  -- no admissible view lists table `n`
+  have hnv : ∀ mf, curManifest d = some mf → ∀ k ≤ mf.unsynced.length, ∀ v, viewAt cfg mf k = some v →
+      ∀ t ∈ v.live, t ≠ n := by
+    intro mf hc k hk v hv t ht
+    have hfr := (holds_some (holds_some hfresh hc k hk) hv).1 (n, gs) hn
+    have := ((h.disk.allViews mf hc k hk v hv).tables t ht).1
+    simp only at hfr
+    rcases hfr with hfr | hfr
+    · omega
+    · rw [hnret] at hfr; exact absurd hfr.1 (by simp)
   have hpf := phase_frame (d' := { d with tables := T' }) h j' s.nextFile (Nat.le_refl _) rfl rfl rfl
     (by subst hj'; exact hpc) ⟨j, hj, hnr⟩ (fun _ => hnc)
     (fun j0 h0 => by
       rw [hj] at h0; cases h0; subst hj'
       exact ⟨rfl, fun _ hb => by rw [hbc] at hb; cases hb⟩)
+    (fun hr => by
+      subst hj'
+      have hrun := h.run hr
+      refine hrun.limbo.table_step hj hnret ⟨gs, hn⟩ ?_ T' hT pc' hbc'
+      -- the session's tables are live in the last view of the manifest
+      intro t ht
+      obtain ⟨mf, v0, hparts⟩ := h.disk.parts
+      obtain ⟨vl, hvl, _, _⟩ := hparts.views mf.unsynced.length (Nat.le_refl _)
+      refine hnv mf hparts.cur _ (Nat.le_refl _) vl hvl t ?_
+      have hsett := hok.mirror_before' hbc
+      unfold Settled at hsett
+      have hm := (holds_some hsett hparts.cur).2
+      have hlv : lastView cfg d = some vl := by unfold lastView; rw [hparts.cur]; exact hvl
+      rw [hlv] at hm
+      cases hu : s.limbo with
+      | none => rw [((MirrorL.of_none hu).1 hm).1]; exact ht
+      | some u =>
+          obtain ⟨m1, _, _⟩ : MirrorE s u vl := (MirrorL.of_some hu).1 hm
+          have hl := hrun.limbo
+          unfold LimboOK at hl
+          rw [hu] at hl
+          obtain ⟨_, _, _, _, _, g6, _, k⟩ : LimboFacts s d u := hl
+          rcases k with k | k
+          · rw [hj] at k
+            have : j.pc.retry = true := k.2
+            rw [hnret] at this; cases this
+          · rw [m1, mem_applyEdit]
+            refine Or.inl ⟨ht, by rw [k.1]; exact List.not_mem_nil, fun ha => ?_⟩
+            have := (g6 t ht).1 t ha
+            omega)
   constructor
   · apply h.disk.frame (d' := { d with tables := T' }) rfl rfl _ hTn h.disk.mnodup (fun _ hx => hx) (fun _ hx => hx)
     intro mf hc k hk v hv t ht
-    apply hT
-    have hfr := (holds_some (holds_some hfresh hc k hk) hv).1 (n, gs) hn
-    have := ((h.disk.allViews mf hc k hk v hv).tables t ht).1
-    simp only at hfr
-    omega
+    exact hT t (hnv mf hc k hk v hv t ht)
   · exact h.mm.of_same rfl rfl
   · intro _
     exact hb.of_same rfl (h.seqHi_step hj rfl rfl rfl (by subst hj'; rfl) (fun _ => hbc)) (Nat.le_refl _)
